@@ -2,6 +2,8 @@ package main
 
 import (
 	"fmt"
+	"go/token"
+	"go/types"
 	"strings"
 
 	"golang.org/x/tools/go/ssa"
@@ -92,5 +94,62 @@ func checkDisposalRoutines(c *Ctx) {
 		if n == 0 {
 			r.Bad("C01.R4", fid, "returns", p.Pos(fn.Pos()), "UNRESOLVED-ANCHOR: no error return found")
 		}
+	}
+}
+
+// ---------------- C01.R5 = C03.R8 (round 4 seed C03-H): what was registered for disposal stays registered ----------------
+
+// checkFinalizerSingleAssignment: a stream operation's temporary files (the stdin spool, the staged output) are
+// registered one by one in a finalizer object whose finalize method the caller runs at the end. The variable that
+// holds that object and is captured by the returned closure is assigned exactly once: assigning a fresh object later
+// ("rebuilt as a literal") silently drops whatever was registered in the first one — the spool file is then never
+// closed or removed. Applies to every local of a pointer-to-struct type whose name ends in Finalizer (pkg/cli, pkg/api).
+func checkFinalizerSingleAssignment(c *Ctx, rule string) {
+	p, r := c.P, c.R
+	n := 0
+	for _, fn := range p.Funcs {
+		if !isSubject(fn) || fn.Pkg == nil {
+			continue
+		}
+		pp := fn.Pkg.Pkg.Path()
+		if pp != modPath+"/pkg/cli" && pp != modPath+"/pkg/api" {
+			continue
+		}
+		k := 0
+		eachInstr(fn, func(_ *ssa.BasicBlock, _ int, i ssa.Instruction) {
+			al, ok := i.(*ssa.Alloc)
+			if !ok {
+				return
+			}
+			// a cell holding *XFinalizer
+			pt, ok := al.Type().(*types.Pointer).Elem().(*types.Pointer)
+			if !ok || !strings.HasSuffix(typeNameOf(pt.Elem()), "Finalizer") {
+				return
+			}
+			stores := 0
+			var second token.Pos
+			for _, rf := range *al.Referrers() {
+				if st, ok := rf.(*ssa.Store); ok && st.Addr == ssa.Value(al) {
+					stores++
+					if stores == 2 {
+						second = st.Pos()
+					}
+				}
+			}
+			if stores == 0 {
+				return
+			}
+			k++
+			n++
+			construct := fmt.Sprintf("finalizer variable %s#%d", al.Comment, k)
+			if stores == 1 {
+				r.OK(rule, FuncID(fn), construct, p.Pos(al.Pos()), "assigned once: everything is registered in the object the returned closure finalizes", true)
+			} else {
+				r.Bad(rule, FuncID(fn), construct, p.Pos(second), "the variable holding the finalizer is assigned a second object: resources registered in the first one (the stdin spool file, the opened input) are no longer reached by the finalize call — the temporary file stays behind after every successful run")
+			}
+		})
+	}
+	if n == 0 {
+		r.Bad(rule, "pkg/cli", "anchor", "", "UNRESOLVED-ANCHOR: no captured finalizer variable found")
 	}
 }
